@@ -91,9 +91,25 @@ pub fn mk_pred(p: PredD, negate: bool) -> impl Fn(&u64) -> bool + Clone + Send +
         p.test(*x) != negate
     }
 }
+/// number of invocations of the reduce operator so far in this case
+pub static RED_CALLS: AtomicU64 = AtomicU64::new(0);
+/// the reduce operator panics at its k-th invocation when `PANIC_AT == (ST_RED, k)`; which
+/// operands that invocation combines (elements, chunk results, worker results) depends on the run
+pub const ST_RED_FIRED: u32 = 104;
+#[inline]
+pub fn red_gate() {
+    let k = RED_CALLS.fetch_add(1, Ordering::SeqCst) + 1;
+    let p = *PANIC_AT.lock().unwrap();
+    if p == Some((ST_RED, k)) {
+        rec::record(ST_RED_FIRED, k);
+        panic!("injected panic at invocation {} of the reduce operator", k);
+    }
+}
+
 pub fn mk_red(r: RedD) -> impl Fn(u64, u64) -> u64 + Clone + Send + Sync {
     move |a, b| {
         rec::record(ST_RED, a);
+        red_gate();
         r.apply(a, b)
     }
 }
